@@ -404,7 +404,7 @@ func driveMain(args []string) {
 		aggs = append(aggs, agg)
 		harness = append(harness, agg.HarnessErr...)
 		fmt.Printf("zsim: batch %-22s runs=%d steps=%d checks=%d violations=%d wall=%.1fs\n", b.Label, agg.Runs, agg.Steps, agg.Checks, len(agg.Violations), agg.WallS)
-		if b.Special == "" && !b.Race && b.Engine != "cli" && len(agg.Hashes) > 0 {
+		if b.Special == "" && !b.Race && len(agg.Hashes) > 0 {
 			if bad := recheckDeterminism(agg, *tier); len(bad) > 0 {
 				harness = append(harness, "harness nondeterministic: "+strings.Join(bad, "; "))
 			}
